@@ -17,6 +17,9 @@ RULES = {
              "creation is taken at the proposal's snapshot height, not live",
     "R06.5": "fixed total: CONFIG.total_weight is the sum of the weights of the same voter list that populates VOTERS, and that "
              "population cannot silently merge a repeated address (insert-if-absent or validated unique)",
+    "R06.7": "the group answers the snapshot read truthfully: Member{addr, at_height: Some(h)} of cw4-group and cw4-stake answers "
+             "may_load_at_height(MEMBERS, addr, h) with the caller's h (shared with C09 R09.3) - the flex multisig's ballot weights are "
+             "exactly these answers",
     "R06.6": "frozen membership (fixed): nothing writes VOTERS or CONFIG outside instantiate",
 }
 
@@ -118,6 +121,14 @@ def run(ctx):
     ctx.floor("R06.1", "vote ballot writes", n_vote, 2)
     ctx.floor("R06.1", "proposer ballot writes", n_create, 2)
     check_fixed_instantiate(ctx, it)
+    from . import C09
+    sub = type(ctx)(ctx.pid, ctx.facts, ctx.engine, ctx.tier, ctx.tree_hash)
+    C09.check_queries(sub, C09.items(sub))
+    for k in sub.order:
+        o = sub.obs[k]
+        if o.rule == "R09.3" and "query/Member" in o.key:
+            ctx.ob("R06.7", o.key, True if o.status == "discharged" else (None if o.status == "undecided" else False),
+                   detail="; ".join(o.details), sites=o.sites, sample=o.sample)
     # R06.6
     eps = entry_points(ctx.facts, "cw3_fixed_multisig")
     for name, fn in sorted(eps.items()):
